@@ -29,6 +29,8 @@ def _wrong_paths(rec):
     sub = tuple(rec['ev']['sub'])
     bad = set()
     for m in s1['mfs']:
+        if not m.get('reg', True):
+            continue            # a Manifest that is not part of the tree says nothing about the update
         d = m['p'][:-1]
         for e in m['entries']:
             if e['tag'] in ('IGNORE', 'DIST', 'TIMESTAMP'):
